@@ -6,6 +6,7 @@ package vatomic
 import (
 	"unsafe"
 
+	"verif/vrace"
 	"verif/vrt"
 )
 
@@ -25,9 +26,10 @@ func (h *hdr) obj() int {
 	return h.id
 }
 
-func rd(h *hdr, v uint64) { vrt.Touch(h.obj(), false, v) }
-func wr(h *hdr, v uint64) { vrt.Touch(h.obj(), true, v) }
-func pt(h *hdr, k string) { vrt.Point(k, h.obj(), nil) }
+// the race detector treats every atomic operation as acquire (before) + release (after) on the value's address
+func rd(h *hdr, v uint64) { vrt.Touch(h.obj(), false, v); vrace.ReleaseMerge(unsafe.Pointer(h)) }
+func wr(h *hdr, v uint64) { vrt.Touch(h.obj(), true, v); vrace.ReleaseMerge(unsafe.Pointer(h)) }
+func pt(h *hdr, k string) { vrt.Point(k, h.obj(), nil); vrace.Acquire(unsafe.Pointer(h)) }
 
 type Bool struct {
 	h hdr
@@ -41,7 +43,7 @@ func b2u(b bool) uint64 {
 	return 0
 }
 
-func (x *Bool) Load() bool   { pt(&x.h, "atomic.load"); rd(&x.h, b2u(x.v)); return x.v }
+func (x *Bool) Load() bool   { pt(&x.h, "atomic.load"); v := x.v; rd(&x.h, b2u(v)); return v }
 func (x *Bool) Store(v bool) { pt(&x.h, "atomic.store"); x.v = v; wr(&x.h, b2u(v)) }
 func (x *Bool) Swap(v bool) bool {
 	pt(&x.h, "atomic.swap")
@@ -70,7 +72,7 @@ type numv[T num] struct {
 	v T
 }
 
-func (x *numv[T]) Load() T   { pt(&x.h, "atomic.load"); rd(&x.h, uint64(x.v)); return x.v }
+func (x *numv[T]) Load() T   { pt(&x.h, "atomic.load"); v := x.v; rd(&x.h, uint64(v)); return v }
 func (x *numv[T]) Store(v T) { pt(&x.h, "atomic.store"); x.v = v; wr(&x.h, uint64(v)) }
 func (x *numv[T]) Swap(v T) T {
 	pt(&x.h, "atomic.swap")
@@ -109,8 +111,9 @@ type Pointer[T any] struct {
 
 func (x *Pointer[T]) Load() *T {
 	pt(&x.h, "atomic.load")
-	rd(&x.h, vrt.HashPtr(unsafe.Pointer(x.v)))
-	return x.v
+	v := x.v
+	rd(&x.h, vrt.HashPtr(unsafe.Pointer(v)))
+	return v
 }
 func (x *Pointer[T]) Store(v *T) {
 	pt(&x.h, "atomic.store")
@@ -131,7 +134,8 @@ func (x *Pointer[T]) CompareAndSwap(o, n *T) bool {
 		wr(&x.h, vrt.HashPtr(unsafe.Pointer(n)))
 		return true
 	}
-	rd(&x.h, vrt.HashPtr(unsafe.Pointer(x.v)))
+	cur := x.v
+	rd(&x.h, vrt.HashPtr(unsafe.Pointer(cur)))
 	return false
 }
 
@@ -140,5 +144,5 @@ type Value struct {
 	v any
 }
 
-func (x *Value) Load() any   { pt(&x.h, "atomic.load"); rd(&x.h, 1); return x.v }
+func (x *Value) Load() any   { pt(&x.h, "atomic.load"); v := x.v; rd(&x.h, 1); return v }
 func (x *Value) Store(v any) { pt(&x.h, "atomic.store"); x.v = v; wr(&x.h, 2) }
